@@ -341,9 +341,11 @@ class Extract(Op):
 
 class AddProperty(Op):
     def __init__(self, name, ctype="double", default=None, data=False,
-                 stride=1, uid=0):
+                 stride=1, uid=0, k=0):
+        # k > 0: data for k particles, valid on an array without particles
+        # (documented: the other properties are resized to the new length)
         self.name, self.ctype, self.default, self.data, self.stride, \
-            self.uid = name, ctype, default, data, stride, uid
+            self.uid, self.k = name, ctype, default, data, stride, uid, k
 
     def toks(self, n):
         kind = "r:" if self.ctype in ("double", "float") else "i:"
@@ -358,8 +360,10 @@ class AddProperty(Op):
             ct, st, _ = spec.props[self.name]
             if (ct, st) != (self.ctype, self.stride):
                 return False
-        if self.data and spec.n() == 0:
-            return False          # grows the array: covered by Init
+        if self.data and (spec.n() == 0) != (self.k > 0):
+            return False
+        if self.k > 0 and self.name == "tag":
+            return False
         return True
 
     def run(self, pa, env, fac, aux):
@@ -371,6 +375,10 @@ class AddProperty(Op):
         return pa.add_property(self.name, **kw)
 
     def apply(self, spec, env, aux):
+        if self.k > 0:
+            # no particles yet: the array grows to k default particles
+            for _ in range(self.k):
+                spec.recs.append(spec.default_rec())
         self._n = spec.n()
         new = self.name not in spec.props
         if self.default is not None:
